@@ -224,7 +224,7 @@ def run_example_as_model(name, kw, backend="cvxpy"):
             return out
         try:
             from mc.checks.c05 import validate_posed
-            probs5, _, _ = validate_posed(self, be)
+            probs5, _, _ = validate_posed(self, be, dr=bool(k.get("dimension_reduction_heuristic")))
             res["c05"] += probs5
         except Exception as ex:
             res["c05"].append(("model:validation-raised:%s" % type(ex).__name__, str(ex)[:150]))
